@@ -320,6 +320,10 @@ func runC16(c *Ctx) {
 		c.check(found, "R16.4", construct, "-", "taken from the client configuration", "aliases configured for the client-side handler never reach its dispatcher: aliased reverse calls are rejected as not found")
 	}
 
+	// ---- R16.6
+	c.rule("R16.6", "a reverse call fails once the client is gone also when it is retry-tagged: re-sends only on the wire's temporary-connection code")
+	c.retryGateRule("R16.6")
+
 	// ---- R16.5
 	{
 		invs := c.dispInvokes()
